@@ -1,7 +1,7 @@
 (* C01 -- Every declared Java type and method appears exactly once in the code model.
    Only statements live here; every proof is [exact <lemma of Proofs/JavaFullProofs.v>]. *)
 From Coq Require Import String List Bool Arith.
-From Coca Require Import Lib.GoMap Lib.Str Model.CodeModel Model.JavaFull Model.JavaSelect Proofs.JavaFullProofs.
+From Coca Require Import Lib.GoMap Lib.Str Model.CodeModel Model.JavaFull Model.JavaSelect Proofs.JavaFullProofs Proofs.JavaFunctionsProofs.
 Import ListNotations.
 Open Scope string_scope.
 
@@ -55,3 +55,33 @@ Example C01_example :
                 ("p.q", "A", "help", 7, 20, 24)])])].
 Proof. exact ex_unit_calls. Qed.
 Print Assumptions C01_example.
+
+(* 6. function clause: in the entry of a unit analysed by a fresh listener (whatever the process did before)
+      every declared constructor / method / interface method has an entry with its name, return type
+      (none for a constructor) and ordered (type, name) parameters, and every NAMED entry belongs to a
+      declared one; hypotheses: declarations are named and no two are filed under the same key
+      (same name on the same line at the same column - impossible in a source text) *)
+Theorem C01_functions_exact : forall st ids cls file u,
+    let ts := typed_state (new_listener st ids cls file) u in
+    (forall m, In m (u_members u) -> is_fun m = true -> m_name m <> "") ->
+    NoDup (fun_keys (s_pkg ts) (s_clz ts) (u_members u)) ->
+    exists n, In n (s_classNodes (walk_unit (new_listener st ids cls file) u)) /\
+      (forall m, In m (u_members u) -> is_fun m = true ->
+                 exists f, In f (d_funcs n) /\ fsig f = expected_sig m) /\
+      (forall f, In f (d_funcs n) -> f_name f <> "" ->
+                 exists m, In m (u_members u) /\ is_fun m = true /\ fsig f = expected_sig m).
+Proof. exact unit_functions_exact. Qed.
+Print Assumptions C01_functions_exact.
+
+(* statements and initialisers never create a named entry and never change a signature *)
+Theorem C01_bodies_keep_signatures : forall evs st, quiet_ext st (fold_left body_event evs st).
+Proof. exact quiet_body_events. Qed.
+Print Assumptions C01_bodies_keep_signatures.
+
+Example C01_function_hypotheses_hold :
+  let ts := typed_state (new_listener fstate0 ["p.q.A"] ["p.q.A"] "src/A.java") ex_unit in
+  (forall m, In m (u_members ex_unit) -> is_fun m = true -> m_name m <> "") /\
+  NoDup (fun_keys (s_pkg ts) (s_clz ts) (u_members ex_unit)) /\
+  fun_keys (s_pkg ts) (s_clz ts) (u_members ex_unit) <> [].
+Proof. exact ex_unit_function_hypotheses. Qed.
+Print Assumptions C01_function_hypotheses_hold.
